@@ -152,6 +152,7 @@ theorem gen_sweep2d (hf : FarLaw α) (p : Par2 α) (slow : Grid2 α) (grad : Boo
   obtain ⟨e1, r1⟩ := gen_columns hf p slow grad dirSE dirNE (rangeUp p.nx) (fun j hj => mem_rangeUp' _ _ hj) s hr
   obtain ⟨e2, r2⟩ := gen_columns hf p slow grad dirSW dirNW (rangeDown p.nx) (fun j hj => mem_rangeDown' _ _ hj) _ r1
   rw [← e2, ← e1, ← pyRange_up, ← pyRange_down, hd]
+  unfold Gen.F2.sweep2d
   rfl
 
 end Fteik
